@@ -227,6 +227,25 @@ theorem C06_vgamma_partial (c k : α) (hc : 0 < c) (hk : 0 < k) (hck : c * k = 1
   rw [epRun_rate c k hc hk P hP]
   exact nodeMoments_rate c k hck fixedAge _
 
+/-- **C06 for `variational_gamma` with the translated kernels, no hypothesis on the projections**
+(`rescaling_intervals = 0`): with the projection kernels regenerated from approx.py/hypergeo.py on every run
+(`Gen/Kernels.lean`) and proved scale-equivariant by the kernels cluster, for every interpretation `F` of
+exp/log/sqrt/lgamma (`isFinite` value-independent), after any number of EP iterations the posterior means returned
+by `node_moments` are multiplied by `c` and the variances by `c²`. -/
+theorem C06_vgamma (F : Tsdate.Kernels.SpecFns α) (hfin : ∀ x, F.isFinite x = true) (c : α) (hc : 0 < c)
+    (ofNat : Nat → α) (edges : List (Nat × Nat)) (lik : List (α × α))
+    (fixedAge : List (Option α)) (roots : List Bool) (regularise : Bool)
+    (maxShape minStep tiny reltol : α) (maxitt : Nat) (order : List Nat) (n : Nat) (s : EPState α) :
+    nodeMoments (fixedAge.map (Option.map (fun t => c * t)))
+        (epRun (genProjections F) ofNat edges (lik.map (rmul (1 / c))) (fixedAge.map (Option.map (fun t => c * t)))
+          roots regularise maxShape minStep tiny reltol maxitt order n (s.rate (1 / c))).post
+      = (nodeMoments fixedAge
+          (epRun (genProjections F) ofNat edges lik fixedAge roots regularise maxShape minStep tiny reltol maxitt
+            order n s).post).map (fun mv => (c * mv.1, c * c * mv.2)) :=
+  C06_vgamma_partial c (1 / c) hc (one_div_pos.mpr hc) (mul_one_div_cancel (ne_of_gt hc)) (genProjections F)
+    (genProjections_equivariant F c hc hfin) ofNat edges lik fixedAge roots regularise maxShape minStep tiny reltol
+    maxitt order n s
+
 /-- the all-zero initial state of `ExpectationPropagation.__init__` is its own rescaling -/
 theorem initial_state_rate (k : α) (n m : Nat) :
     ({ post := List.replicate n (0, 0), edgeFac := List.replicate m ((0, 0), (0, 0)),
